@@ -85,6 +85,26 @@ fn digits(rng: &mut Rng, d: u32) -> i128 {
     }
 }
 
+/// A positive number with exactly `nb` bits (1..=126).
+fn bits(rng: &mut Rng, nb: i64) -> i128 {
+    let nb = nb.clamp(1, 126) as u32;
+    let lo = 1i128 << (nb - 1);
+    let r = ((rng.next_u64() as u128) << 64 | rng.next_u64() as u128) % (lo as u128);
+    lo + r as i128
+}
+
+/// Two positive factors whose product has about T bits for a T at one of the
+/// machine-word boundaries (32, 64, 96, 128, 192): where "fits in a u64 / an
+/// i128 / three words" decides which code path multiplies and rounds.  Mostly
+/// balanced (both factors near T/2 bits), sometimes lopsided.
+fn boundary_pair(rng: &mut Rng) -> (i128, i128) {
+    let t = *rng.pick(&[31i64, 32, 63, 64, 95, 96, 126, 127, 128, 129, 191, 192, 193]) + rng.range(-1, 1);
+    let ba = if rng.pct(60) { t / 2 + rng.range(-1, 1) } else { rng.range((t - 126).max(1), (t - 1).min(126)) };
+    let ba = ba.clamp(1, 126);
+    let bb = (t - ba + rng.range(0, 1)).clamp(1, 126);
+    (bits(rng, ba), bits(rng, bb))
+}
+
 fn coeff(rng: &mut Rng, max_d: u32) -> i128 {
     let d = rng.range(1, max_d as i64) as u32;
     digits(rng, d)
@@ -164,7 +184,15 @@ pub fn probe_op(idx: u64) -> (usize, Op) {
     let p = *rng.pick(&PRIMES);
     // divisor / quantum: p * k, positive unless signed below
     let divisor = |rng: &mut Rng, max_d: u32| -> i128 {
-        let k = if rng.pct(30) { 1 } else { coeff(rng, max_d.saturating_sub(2).max(1)) };
+        let k = if rng.pct(30) {
+            1
+        } else if rng.pct(20) && max_d >= 22 {
+            // around the 32- and 64-bit boundaries
+            let nb = *rng.pick(&[31i64, 32, 33, 62, 63, 64, 65]);
+            bits(rng, nb)
+        } else {
+            coeff(rng, max_d.saturating_sub(2).max(1))
+        };
         p * k
     };
     let op = match route {
@@ -196,16 +224,22 @@ pub fn probe_op(idx: u64) -> (usize, Op) {
             let sa = rng.range(1, 18) as u8;
             let sb = rng.range(19 - sa as i64, 18).max(1) as u8;
             let (da, db) = if route == 3 { (18, 18) } else { (30, 30) };
-            let a = sign(coprime10(coeff(&mut rng, da)), &mut rng);
-            let b = sign(coprime10(coeff(&mut rng, db)), &mut rng);
+            let (a, b) = if rng.pct(35) { boundary_pair(&mut rng) } else { (coeff(&mut rng, da), coeff(&mut rng, db)) };
+            let a = sign(coprime10(a), &mut rng);
+            let b = sign(coprime10(b), &mut rng);
             Op::Mul { a: (a, sa), b: (b, sb), form: form5 }
         }
         4 => {
             let (sa, sb) = if sa as u32 + sb as u32 == 0 { (3, 0) } else { (sa, sb) };
             let n = rng.range(0, (sa as i64 + sb as i64 - 1).min(18)) as u8;
             let wide = rng.pct(40);
-            let a = sign(coprime10(coeff(&mut rng, if wide { 30 } else { 18 })), &mut rng);
-            let b = sign(coprime10(coeff(&mut rng, if wide { 30 } else { 18 })), &mut rng);
+            let (a, b) = if rng.pct(35) {
+                boundary_pair(&mut rng)
+            } else {
+                (coeff(&mut rng, if wide { 30 } else { 18 }), coeff(&mut rng, if wide { 30 } else { 18 }))
+            };
+            let a = sign(coprime10(a), &mut rng);
+            let b = sign(coprime10(b), &mut rng);
             Op::MulRounded { a: (a, sa), b: (b, sb), n, form: form4 }
         }
         5 | 6 => {
@@ -243,7 +277,15 @@ pub fn probe_op(idx: u64) -> (usize, Op) {
             // dividend scale <= n + divisor scale
             let n = rng.range((sa as i64 - sb as i64).max(0), 18) as u8;
             let b = sign(divisor(&mut rng, 30), &mut rng);
-            let a = sign(not_multiple(coeff(&mut rng, 36), p), &mut rng);
+            let shift = n as u32 + sb as u32 - sa as u32;
+            let a = if rng.pct(25) && shift <= 36 {
+                // dividend * 10^shift straddles the i128 boundary
+                let target = i128::MAX / p10(shift);
+                target / 2 + (((rng.next_u64() as u128) << 64 | rng.next_u64() as u128) % (target as u128)) as i128
+            } else {
+                coeff(&mut rng, 36)
+            };
+            let a = sign(not_multiple(a.max(1), p), &mut rng);
             Op::DivRounded { a: (a, sa), b: (b, sb), n, form: form4 }
         }
         12 => {
